@@ -69,6 +69,8 @@ type groupState struct {
 	commits     map[string][]*commitCall // client -> calls
 	wireCmt     []wireCommit
 	topics      []string
+	lastClaim   map[string][]byte // client -> its last cooperative-sticky join metadata that claimed partitions
+	joinFenced  map[string]bool   // client was told UNKNOWN_MEMBER_ID by JoinGroup
 	lastEpoch   map[string]int32
 	epochEvs    []epochEv
 	subs        map[string]map[string]bool // member -> topics it subscribes to (all of gs.topics unless the plan splits subscriptions; a purge removes one)
@@ -518,6 +520,9 @@ func scenGroup(s *Sim) {
 	s.StartCluster(nb, kopts...)
 	gs := &groupState{s: s, members: map[string]*gmember{}, commits: map[string][]*commitCall{}, topics: topics, nparts: nparts, partsOf: partsOf,
 		mode: p.Knob("mode", 1), block: p.Knob("block_rebalance", 0) != 0, defaults: p.Knob("default_callbacks", 0) != 0, syncGens: map[int32]bool{}, joinInfo: map[string]*joinSnapshot{}}
+	if p.Knob("stale_family", 0) != 0 {
+		s.RewriteReq = gs.staleClaims
+	}
 	s.OnReq = append(s.OnReq, gs.onReq)
 	s.OnResp = append(s.OnResp, gs.onResp)
 
@@ -802,6 +807,50 @@ func (gs *groupState) replayOwnership(report bool) map[tpKey]string {
 
 // wire monitors ------------------------------------------------------------
 
+// staleClaims is the request-rewriting hook of the stale-claimant plans (C27:
+// "all prior ownership states (including stale-generation claimants)"). A
+// member whose JoinGroup was answered UNKNOWN_MEMBER_ID rejoins as a new
+// member; a client that does not forget what it owned (another implementation
+// in the same group, or this one before fix b996e06) sends its old claims
+// along, with their old generation. The rewrite puts the member's own last
+// claiming metadata back into its joins until it claims something again, so
+// that the leader's balancer meets stale claimants whatever the client does.
+func (gs *groupState) staleClaims(r *WireReq) kmsg.Request {
+	jr, ok := r.Req.(*kmsg.JoinGroupRequest)
+	if !ok || !strings.HasPrefix(r.Conn.Client, "m") {
+		return nil
+	}
+	gs.mu.Lock()
+	defer gs.mu.Unlock()
+	for i := range jr.Protocols {
+		if jr.Protocols[i].Name != "cooperative-sticky" {
+			continue
+		}
+		md := kmsg.NewConsumerMemberMetadata()
+		if err := md.ReadFrom(jr.Protocols[i].Metadata); err != nil {
+			return nil
+		}
+		n := 0
+		for _, o := range md.OwnedPartitions {
+			n += len(o.Partitions)
+		}
+		if n > 0 {
+			if gs.lastClaim == nil {
+				gs.lastClaim = map[string][]byte{}
+			}
+			gs.lastClaim[r.Conn.Client] = append([]byte(nil), jr.Protocols[i].Metadata...)
+			delete(gs.joinFenced, r.Conn.Client)
+			return nil
+		}
+		if gs.joinFenced[r.Conn.Client] && gs.lastClaim[r.Conn.Client] != nil {
+			jr.Protocols[i].Metadata = append([]byte(nil), gs.lastClaim[r.Conn.Client]...)
+			gs.s.Probe("stale_claims_injected")
+			return jr
+		}
+	}
+	return nil
+}
+
 func (gs *groupState) onReq(r *WireReq) {
 	if !strings.HasPrefix(r.Conn.Client, "m") {
 		return
@@ -860,6 +909,14 @@ func (gs *groupState) onResp(r *WireResp) {
 	case *kmsg.SyncGroupResponse:
 		fence(resp.ErrorCode, "SyncGroup")
 	case *kmsg.JoinGroupResponse:
+		if resp.ErrorCode == 25 {
+			gs.mu.Lock()
+			if gs.joinFenced == nil {
+				gs.joinFenced = map[string]bool{}
+			}
+			gs.joinFenced[r.Conn.Client] = true
+			gs.mu.Unlock()
+		}
 		if resp.ErrorCode == 0 {
 			gs.mu.Lock()
 			if resp.Generation > gs.maxGen {
